@@ -298,13 +298,14 @@ def files(tier):
     for hdr in HEADERS2:
         for t in itertools.product(G5, repeat=2):
             out.append((hdr, [list(t)]))
+    out.append((['a', 'A', 'a'], [['1', '2', '3']]))
+    out.append((['a', 'a', 'a', 'b'], [['1', '2', '3', '4']]))
     if tier == 'thorough':
         for hdr in HEADERS2:
             for t in itertools.product(itertools.product(G5, repeat=2), repeat=2):
                 out.append((hdr, [list(x) for x in t]))
         for t in itertools.product(G5, repeat=3):
             out.append((['a'], [[c] for c in t]))
-        out.append((['a', 'A', 'a'], [['1', '2', '3']]))
     return out
 
 
